@@ -5,6 +5,7 @@ from common import enc_f, dec_f, close, rng
 import estgen
 
 LEAN_MODULE = 'PGM.Properties.C03'
+LEAN_EXTRA = ['PGM.Properties.C03B']
 TRUSTED = ['Lean 4.33 kernel', 'axioms: propext, Classical.choice, Quot.sound',
            'the Frank-Wolfe gap certificate (PGM/Model/Certificate.lean, theorem fw_gap_bound) evaluated in Float by the driver on the table the real code returns',
            'convergence of MD / RDA / IG to a small certificate value is NOT proved: it is decided per generated input by evaluating the proved certificate (a test, labelled)',
@@ -104,6 +105,64 @@ def run(res, drv, tier, seed):
                 ml, mg = dec_f(o['out']['loss']), dec_f(o['out']['gap'])
                 if not close(ml, lp, 1e-9, 1e-9 * scale) or not close(mg, gap, 1e-6, 1e-7 * scale):
                     res.violation('correspondence', f'certificate: Lean model loss {ml}, gap {mg}; harness {lp}, {gap}', dict(rp, stream='C03.fwgap'))
+    armijo_audit(res, r, tier)
+
+
+def armijo_audit(res, r, tier):
+    """C03B md_step_descends / md_no_forced_descent on real runs: every line search of mirror_descent that ends before its 25th trial
+    hands on a loss no larger than the one it started from; a run without an exhausted search ends no higher than the uniform start"""
+    for ci in range(8 if tier == 'quick' else 60):
+        prob = estgen.gen_problem(r, with_zeros=(ci % 3 == 0), nmeas=r.randint(1, 4))
+        if ci % 4 == 1:
+            for m in prob['meas']:
+                m['noise'] = r.choice([1e-3, 1e-5])      # stiff: many halvings, some searches exhausted
+        iters = r.choice([1, 2, 5, 20, 60])
+        total = r.choice([None, float(prob['N'])])
+        eng = estgen.make_engine(prob['dom'], prob['zeros'], iters=iters)
+        log = []
+        real = eng._marginal_loss
+
+        def loss(*a, _f=real, **k):
+            out = _f(*a, **k)
+            log.append(float(out[0]))
+            return out
+        eng._marginal_loss = loss
+        canon = dict(estgen.canon_problem(prob), engine='MD', iters=iters, total=total, audit='armijo')
+        res.case(canon, True)
+        try:
+            with contextlib.redirect_stdout(io.StringIO()), np.errstate(all='ignore'):
+                eng.estimate(estgen.to_measurements(prob['meas']), total=total, engine='MD', callback=lambda mu: log.append('it'), options={})
+        except Exception as e:
+            res.violation('failing-input', f'estimate(MD, iters={iters}) raises {type(e).__name__}: {str(e)[:120]}', {'request': canon}, key='optimum:raises:MD')
+            continue
+        if not log or log[0] == 'it':
+            continue
+        init, cur, forced, bad = log[0], log[0], 0, None
+        trials = []
+        segs, seg = [], None
+        for x in log[1:]:
+            if x == 'it':
+                seg = []
+                segs.append(seg)
+            elif seg is not None:
+                seg.append(x)
+        for t, seg in enumerate(segs):
+            if not seg:
+                continue
+            if len(seg) >= 25:
+                forced += 1
+            elif seg[-1] > cur + 1e-9 * (abs(cur) + 1):
+                bad = f'iteration {t + 1}: the line search accepted trial {len(seg)} of 25 with loss {seg[-1]!r} although the current loss is {cur!r}'
+                break
+            cur = seg[-1]
+        res.count('armijo audit: MD runs')
+        res.count('armijo audit: line searches exhausted (25 trials)', forced)
+        res.count('armijo audit: line searches accepted before the 25th trial', sum(1 for sg in segs if 0 < len(sg) < 25))
+        if not bad and forced == 0 and segs and cur > init + 1e-9 * (abs(init) + 1):
+            bad = f'no line search was exhausted, yet the run ends at loss {cur!r} above the loss of the uniform start {init!r}'
+        if bad:
+            res.violation('failing-input', f'mirror descent (iters={iters}): {bad}: an accepted Armijo step can never increase the loss when the marginal oracle is exact '
+                          '(theorems md_step_descends_exact / md_no_forced_descent_exact)', {'request': canon, 'observed': {'losses': [x for x in log if x != "it"][:60]}}, key='optimum:armijo')
 
 
 def search(res, tier, seed, broken):
